@@ -40,6 +40,10 @@ ENTRY(closestPointOnLine_3_f32) { auto p = in_vec<3, TY>(c, 0); auto a = in_vec<
 ENTRY(closestPointOnLine_2_f32) { auto p = in_vec<2, TY>(c, 0); auto a = in_vec<2, TY>(c, 1); auto b = in_vec<2, TY>(c, 2); out_vec(c, glm::closestPointOnLine(p, a, b)); }
 ENTRY(l1Norm_3_f32) { auto a = in_vec<3, TY>(c, 0); c.out(glm::l1Norm(a)); }
 ENTRY(l2Norm_3_f32) { auto a = in_vec<3, TY>(c, 0); c.out(glm::l2Norm(a)); }
+ENTRY(lMaxNorm_3_f32) { auto a = in_vec<3, TY>(c, 0); c.out(glm::lMaxNorm(a)); }
+ENTRY(lMaxNorm2_3_f32) { auto a = in_vec<3, TY>(c, 0); auto b = in_vec<3, TY>(c, 1); c.out(glm::lMaxNorm(a, b)); }
+ENTRY(lxNorm_3_f32) { auto a = in_vec<3, TY>(c, 0); c.out(glm::lxNorm(a, 3u)); }
+ENTRY(lxNorm2_3_f32) { auto a = in_vec<3, TY>(c, 0); auto b = in_vec<3, TY>(c, 1); c.out(glm::lxNorm(a, b, 3u)); }
 ENTRY(l1Norm2_3_f32) { auto a = in_vec<3, TY>(c, 0); auto b = in_vec<3, TY>(c, 1); c.out(glm::l1Norm(a, b)); }
 ENTRY(l2Norm2_3_f32) { auto a = in_vec<3, TY>(c, 0); auto b = in_vec<3, TY>(c, 1); c.out(glm::l2Norm(a, b)); }
 // gtx/vector_angle: arguments are unit vectors (documented precondition)
